@@ -456,9 +456,10 @@ def session_line(res, max_redirects, use_jar, factory_pairs, login, method, prox
 
 def parse_session_reply(rep):
     parts = rep.split(' ')
-    if len(parts) != 3:
+    if len(parts) != 5:
         return rep, None, None
     hops = [] if parts[2] == '~' else [dec_bytes(t) for t in parts[2].split('/')]
+    parse_session_reply.counts = (int(parts[3]), int(parts[4]))
     return parts[0], int(parts[1]), hops
 
 
